@@ -464,6 +464,40 @@ def fam_cap(P, n, tier):
         sc = Scn('cap%d' % i, cap=P.choice(CAPS), buf_size=buf[0], ubuf_size=buf[1], fill=P.choice([0, 0x55, 0xAA, 0xFF]))
         asz = sc.asz()
         mode = P.choice(['args', 'args', 'read', 'test', 'list', 'event', 'lanesfull'])
+        if i % 12 == 5:
+            # counters beyond one byte: argument texts, parse positions and flush cursors of 255..600 bytes
+            # (capacities well above 256), as WRITE of long strings / hex buffers, their READ back, and
+            # a self-parsing write handler given a long raw text
+            big = P.choice([300, 512, 513, 600])
+            sc = Scn('cap%d' % i, cap=P.choice(CAPS), buf_size=(big if not shared else 2 * big), ubuf_size=(-1 if shared else P.choice([16, 300])), fill=0)
+            asz = sc.asz()
+            sv = Var(BUFSTR, 290, RW, init=b'\0' * 290)
+            hv = Var(BUFHEX, 140, RW, init=bytes(140))
+            c = Cmd('+S', vars=[sv, Var(UINT, 1, RW, init=b'\x07')])
+            ch = Cmd('+H', vars=[hv])
+            cr = Cmd('+RAW', w=True)
+            sc.add_group([c, ch, cr])
+            sc.script(0, cr.ci, 0, [Res(RC['OK'])] * 8)
+            sched(P, sc, style=P.choice(['eager', 'rand']))
+            for ln in P.sample([250, 254, 255, 256, 257, 258, 280, asz - 8, asz - 2], 3):
+                ln = max(1, min(ln, 287))
+                sc.feed('AT+S="' + ''.join(P.choice('abcXYZ019') for _ in range(ln)) + '",9' + P.choice(['\n', '\r\n']))
+                sc.drain(6000)
+                sc.feed('AT+S?\n')
+                sc.drain(6000)
+            for nb in P.sample([126, 127, 128, 129, 140], 2):
+                sc.feed('AT+H=' + ''.join(P.choice('0123456789abcdefABCDEF') for _ in range(2 * nb)) + '\n')
+                sc.drain(6000)
+                sc.feed('AT+H?\n')
+                sc.drain(6000)
+            for ln in P.sample([254, 255, 256, 257, 300, asz - 1, asz, asz + 1, asz + 300], 4):
+                sc.feed('AT+RAW=' + ''.join(P.choice('abAB,"?= ') for _ in range(max(0, ln))) + '\n')
+                sc.drain(6000)
+            if P.chance(0.5):
+                sc.op('t %d %d' % (c.ci, T_READ))
+                sc.drain(6000)
+            out.append(sc)
+            continue
         if mode == 'lanesfull':
             # as many commands as the match lanes can hold: 4 per byte of the command buffer's capacity
             if shared:
@@ -701,6 +735,15 @@ def fam_hold(P, n, tier):
                 sc.op('b')
         sc.service(80)
         sc.op('h')
+        if i % 5 == 3:
+            # the application gives up on a suspended command and initialises the parser again (same object):
+            # the new parser is not held, reads the next line and answers it
+            sc.op('NI')
+            sc.op('h')
+            sc.feed('AT\n')
+            sc.drain(400)
+            sc.op('h')
+            sc.op('b')
         sc.op('x %d' % P.choice([0, -1]))
         sc.drain(4000)
         sc.op('h')
@@ -768,9 +811,29 @@ def fam_lines(P, n, tier):
                         sc.script(kind, c.ci, 0, [Res(code)] * 12)
             if lines is None:
                 lines = [rand_line(P, sc) for _ in range(P.randint(2, 6))]
+                if i % 2 == 1:
+                    # a two-line history aimed at state that must not survive a line: an AMBIGUOUS abbreviation
+                    # (in any form: run, '?', '=', '=?', trailing garbage) directly followed by a UNIQUE
+                    # proper abbreviation of another command, then an exact name
+                    names = [c.name.upper() for c in sc.cmds()]
+                    pref = {}
+                    for nm in names:
+                        for k in range(1, len(nm)):
+                            pref.setdefault(nm[:k], 0)
+                    for pf in pref:
+                        pref[pf] = sum(1 for nm in names if nm.startswith(pf) and len(nm) > len(pf))
+                    amb = sorted(pf for pf, k in pref.items() if k >= 2 and pf not in names)
+                    uni = sorted(pf for pf, k in pref.items() if k == 1 and pf not in names)
+                    if amb and uni:
+                        tail = P.choice(['', '?', '=1', '=', '=?', '=x,y', '?x', '1'])
+                        pair = ['AT' + P.choice(amb) + tail + P.choice(['\n', '\r\n']),
+                                'AT' + P.choice(uni) + P.choice(['', '?', '=2', '=?']) + '\n',
+                                'AT' + P.choice(names) + '\n']
+                        at = P.randint(0, len(lines))
+                        lines = lines[:at] + pair + lines[at:]
             for ln in lines:
                 if variant == 'fresh':
-                    sc.op('N')
+                    sc.op('NI' if i % 4 >= 2 else 'N')      # NI: cat_init on the used object, N: on zeroed memory
                 sc.feed(ln)
                 sc.drain(6000)
             sc.meta['lines'] = lines
